@@ -68,6 +68,7 @@ def native_all(run, ns, seeds):
 def main(run):
     pkg = GS.generator_package()
     run.pkg = pkg
+    run.allow_pruned = True       # rejection-sampling loops (factory_cheerleader) are explored up to 3 re-draws
     run.under_contract(pkg, "generators", ["factory_generator", "factory_cheerleader_generator", "factory_cheerleader_next_generator",
                                            "predictible_factory_generator", "graph_generator", "graph_to_game", "graph_gen_to_game",
                                            "cycle", "additive", "xos", "xos_norandom", "xs", "_apply_or", "oxs", "k_budget_generator",
